@@ -144,6 +144,7 @@ def C07(g, tier):
                 for t in itertools.product(range(nn), repeat=ne):
                     for bk in BACKENDS:
                         yield sx(["a_cc", bk, list(s), list(t), nn]), ne >= 1
+                    yield sx(["a_cc_uf", list(s), list(t), nn]), ne >= 1
     for _ in range(N(tier, 300, 3000)):
         n = g.size(6)
         xs = g.nats(n, 5)
@@ -200,6 +201,14 @@ def C07(g, tier):
             t = mutate_list(g, t, nn + 1)
         for bk in BACKENDS:
             yield sx(["a_cc", bk, s, t, nn]), ne > 1
+        yield sx(["a_cc_uf", s, t, nn]), ne > 1
+        # longer chains / deeper union-find trees
+        if g.r.random() < 0.3:
+            nn2 = g.r.randint(8, 20)
+            ne2 = g.r.randint(nn2 // 2, 2 * nn2)
+            s2, t2 = g.nats(ne2, nn2 - 1), g.nats(ne2, nn2 - 1)
+            yield sx(["a_cc_uf", s2, t2, nn2]), True
+            yield sx(["a_cc", "vec", s2, t2, nn2]), True
 
 
 # --------------------------------------------------------------------------- C08
